@@ -241,6 +241,9 @@ type commitmentsVerificationState struct {
 	previousPhaseSharesMessages      []*PeerSharesMessage
 	previousPhaseCommitmentsMessages []*MemberCommitmentsMessage
 
+	// members operating when the verification of this phase started
+	phaseSenders []group.MemberIndex
+
 	phaseAccusationsMessages []*SecretSharesAccusationsMessage
 }
 
@@ -257,6 +260,7 @@ func (cvs *commitmentsVerificationState) Initiate(ctx context.Context) error {
 		cvs.previousPhaseSharesMessages,
 		cvs.previousPhaseCommitmentsMessages,
 	)
+	cvs.phaseSenders = cvs.member.group.OperatingMemberIndexes()
 	accusationsMsg, err := cvs.member.VerifyReceivedSharesAndCommitmentsMessages(
 		cvs.previousPhaseSharesMessages,
 		cvs.previousPhaseCommitmentsMessages,
@@ -275,7 +279,8 @@ func (cvs *commitmentsVerificationState) Initiate(ctx context.Context) error {
 func (cvs *commitmentsVerificationState) Receive(msg net.Message) error {
 	switch phaseMessage := msg.Payload().(type) {
 	case *SecretSharesAccusationsMessage:
-		if cvs.member.shouldAcceptMessage(
+		if cvs.member.shouldAcceptMessageFrom(
+			cvs.phaseSenders,
 			phaseMessage.SenderID(),
 			msg.SenderPublicKey(),
 		) && cvs.member.sessionID == phaseMessage.sessionID {
@@ -455,6 +460,9 @@ type pointsValidationState struct {
 
 	previousPhaseMessages []*MemberPublicKeySharePointsMessage
 
+	// members operating when the verification of this phase started
+	phaseSenders []group.MemberIndex
+
 	phaseMessages []*PointsAccusationsMessage
 }
 
@@ -468,6 +476,7 @@ func (pvs *pointsValidationState) ActiveBlocks() uint64 {
 
 func (pvs *pointsValidationState) Initiate(ctx context.Context) error {
 	pvs.member.MarkInactiveMembers(pvs.previousPhaseMessages)
+	pvs.phaseSenders = pvs.member.group.OperatingMemberIndexes()
 	accusationMsg, err := pvs.member.VerifyPublicKeySharePoints(
 		pvs.previousPhaseMessages,
 	)
@@ -485,7 +494,8 @@ func (pvs *pointsValidationState) Initiate(ctx context.Context) error {
 func (pvs *pointsValidationState) Receive(msg net.Message) error {
 	switch phaseMessage := msg.Payload().(type) {
 	case *PointsAccusationsMessage:
-		if pvs.member.shouldAcceptMessage(
+		if pvs.member.shouldAcceptMessageFrom(
+			pvs.phaseSenders,
 			phaseMessage.SenderID(),
 			msg.SenderPublicKey(),
 		) && pvs.member.sessionID == phaseMessage.sessionID {
